@@ -26,10 +26,17 @@ inductive What where
   | junk                    -- anything else (an int, None, a list …): ignored by `_split_what`
   deriving DecidableEq, Repr, FromJson, ToJson, Inhabited
 
-structure Case where
-  what    : List What
+/-- one call of the filter -/
+structure Query where
   attr    : AttrId          -- the attribute passed to the filter
   valType : String          -- `value.__class__` (exact class of the value)
+  deriving DecidableEq, Repr, FromJson, ToJson, Inhabited
+
+structure Case where
+  what    : List What
+  /-- ONE `include(*what)` object and ONE `exclude(*what)` object are asked these questions, in this order
+      (as `asdict` does for the fields of nested instances) -/
+  queries : List Query
   deriving DecidableEq, Repr, FromJson, ToJson, Inhabited
 
 inductive FR where
@@ -40,8 +47,8 @@ inductive FR where
 def FR.ofBool (b : Bool) : FR := if b then .T else .F
 
 structure Obs where
-  inc : FR      -- include(*what)(attribute, value)
-  exc : FR      -- exclude(*what)(attribute, value)
+  inc : List FR      -- include(*what)(attribute, value), per query
+  exc : List FR      -- exclude(*what)(attribute, value), per query
   deriving DecidableEq, Repr, FromJson, ToJson, Inhabited
 
 /-- `_split_what` -/
@@ -58,8 +65,9 @@ def excludeF (what : List What) (a : AttrId) (valType : String) : Bool :=
   let s := splitWhat what
   !(s.1.contains valType || s.2.1.contains a.name || s.2.2.contains a)
 
+/-- the closures keep nothing but the three frozensets: every call is answered from its own arguments -/
 def model (c : Case) : Obs :=
-  { inc := FR.ofBool (includeF c.what c.attr c.valType),
-    exc := FR.ofBool (excludeF c.what c.attr c.valType) }
+  { inc := c.queries.map (fun q => FR.ofBool (includeF c.what q.attr q.valType)),
+    exc := c.queries.map (fun q => FR.ofBool (excludeF c.what q.attr q.valType)) }
 
 end Attrs.C19.Filt
